@@ -35,6 +35,7 @@ def handle (line : String) : String :=
       | "timeout" => handleTimeout fs
       | "dscan"   => handleDScan fs
       | "progress" => handleProgress fs
+      | "hshake"  => handleHShake fs
       | "top5"    => handleTop5 fs
       | "ratios"  => handleRatios fs
       | "exc"     => handleExc fs
